@@ -152,7 +152,7 @@ def mc_job(name, module, cfgs, props, export=True, strict=True, cap_q=None, cap_
 
 
 STRICT_GENERATED = os.environ.get("VERIF_STRICT_GENERATED", "1") != "0"
-STRICT_QUICK_STEPS = int(os.environ.get("VERIF_STRICT_QUICK_STEPS", "1500"))
+STRICT_QUICK_STEPS = int(os.environ.get("VERIF_STRICT_QUICK_STEPS", "800"))
 TIER = ["quick"]
 
 
@@ -210,7 +210,7 @@ def run_check(pid, tier, replay=None):
             for s in scheds:
                 chunk.append(s)
                 size += len(s["steps"])
-                if size > 8000:
+                if size > 3000:
                     batches.append((name, chunk))
                     chunk, size = [], 0
             if chunk:
@@ -695,7 +695,7 @@ PLANS = {
                 mc=[mc_job("conn_ro", "MC_Conn", {"quick": ["MC_C01_q1.cfg"], "thorough": ["MC_C01_q1.cfg", "MC_C01_t1.cfg"]}, ["C01"])],
                 level="model_checking", assumptions=MSG_ASSUME),
     "C02": Plan("msg", "TraceRenetMon", ["C02"], [("random_ru", g_random_ru), ("random_mixed", g_random_mixed)],
-                mc=[mc_job("conn_ru", "MC_Conn", {"quick": ["MC_C02_q1.cfg", "MC_C02_q2.cfg", "MC_C02_t1.cfg"], "thorough": ["MC_C02_q1.cfg", "MC_C02_q2.cfg", "MC_C02_t1.cfg"]}, ["C02"])],
+                mc=[mc_job("conn_ru", "MC_Conn", {"quick": ["MC_C02_q1.cfg", "MC_C02_q2.cfg", "MC_C02_t1.cfg"], "thorough": ["MC_C02_q1.cfg", "MC_C02_q2.cfg", "MC_C02_t1.cfg"]}, ["C02"], cap_q=400)],
                 level="model_checking", assumptions=MSG_ASSUME),
     "C03": Plan("msg", "TraceRenetMon", ["C03"], [("random_u", g_random_u), ("random_mixed", g_random_mixed)],
                 mc=[mc_job("conn_u", "MC_Conn", {"quick": ["MC_C03_q1.cfg", "MC_C03_q2.cfg"], "thorough": ["MC_C03_q1.cfg", "MC_C03_q2.cfg", "MC_C03_t1.cfg"]}, ["C03"])],
@@ -722,7 +722,7 @@ PLANS = {
                      "non-trivial = at least one delivery and one fault"),
     "C12": Plan("msg", "TraceRenetMon", ["C12"], [("api", g_api)],
                 mc=[mc_job("server_api", "MC_Server", {"quick": ["MC_C12_q1.cfg", "MC_C12_q2.cfg"], "thorough": ["MC_C12_q1.cfg", "MC_C12_q2.cfg"]}, ["C12"], strict=False,
-                           cap_q=2500, cap_t=60000)],
+                           cap_q=1500, cap_t=60000)],
                 level="model_checking", assumptions=MSG_ASSUME,
                 rule="sequences of public API calls of RenetServer / RenetClient (table, status, traffic, undecodable packets, local clients): "
                      "every model state of the depth-5 call graph over two ids + seeded-random sequences up to 25 calls; all are non-trivial "
